@@ -1522,9 +1522,9 @@ class FunctionNode(AstNode):
             for arg in ast.params:
                 name = arg.name
                 if name in attrs:
-                    arg.attrs.update(attrs[name])
+                    arg.attrs.update(yaml_attr_values(attrs[name]))
         if "fattrs" in kwargs:
-            ast.attrs.update(kwargs["fattrs"])
+            ast.attrs.update(yaml_attr_values(kwargs["fattrs"]))
 
         if "splicer" in kwargs:
             self.splicer = kwargs["splicer"]
@@ -2095,6 +2095,19 @@ def clean_list(lst):
     for i, line in enumerate(lst):
         if line is None:
             lst[i] = ""
+
+def yaml_attr_values(attrs):
+    """Return attributes from a YAML attrs/fattrs mapping with the values
+    the parser records for the inline '+name(value)' spelling:
+    numbers become their text, 'len: 30' is the same as '+len(30)'.
+    """
+    new = {}
+    for key, value in attrs.items():
+        if isinstance(value, (int, float)) and not isinstance(value, bool):
+            value = str(value)
+        new[key] = value
+    return new
+
 
 def listify(entry, names):
     """
